@@ -11,44 +11,10 @@
 (* Trace mode (Family = "trace"): cases recorded from the implementation   *)
 (* (TRACE_FILE) are judged one by one; failing ids are printed.            *)
 (***************************************************************************)
-EXTENDS BigInt, Json, IOUtils, TLC
+EXTENDS BigInt, Float32, Json, IOUtils, TLC
 
 CONSTANTS Family, Emit
 VARIABLE c          \* the case: a record [kind, ...]
-
-\* ---- binary32 -------------------------------------------------------------
-\* fields of a 4-byte pattern
-FSign(b) == b[1] \div 128
-FExp(b)  == (b[1] % 128) * 2 + b[2] \div 128
-FMant(b) == (b[2] % 128) * 65536 + b[3] * 256 + b[4]
-FClass(b) == IF FExp(b) = 255 THEN (IF FMant(b) = 0 THEN "inf" ELSE "nan")
-             ELSE IF FExp(b) = 0 THEN (IF FMant(b) = 0 THEN "zero" ELSE "subnormal")
-             ELSE "normal"
-\* exact value of a finite pattern as <<sign, odd significand m, exponent e>> with value = (-1)^s * m * 2^e
-\* (zero = <<s, 0, 0>>)
-RECURSIVE OddNorm(_, _)
-OddNorm(m, e) == IF m % 2 = 0 THEN OddNorm(m \div 2, e + 1) ELSE <<m, e>>
-FValue(b) ==
-    LET s == FSign(b) IN
-    CASE FClass(b) = "zero" -> <<s, 0, 0>>
-      [] FClass(b) = "subnormal" -> LET n == OddNorm(FMant(b), -149) IN <<s, n[1], n[2]>>
-      [] FClass(b) = "normal" -> LET n == OddNorm(8388608 + FMant(b), FExp(b) - 150) IN <<s, n[1], n[2]>>
-\* re-assembly of a pattern from its fields: the encoding of the value FValue(b)
-FPack(s, e, m) == <<s * 128 + e \div 2, (e % 2) * 128 + m \div 65536, (m \div 256) % 256, m % 256>>
-\* the pattern of a finite value <<s, m, e>> (m odd or 0) if it is representable
-FEnc(v) ==
-    IF v[2] = 0 THEN FPack(v[1], 0, 0)
-    ELSE LET m == v[2] e == v[3]
-             \* scale the significand up to 24 bits: m * 2^k with 2^23 <= m * 2^k < 2^24
-             RECURSIVE Up(_, _)
-             Up(x, k) == IF x >= 8388608 THEN <<x, k>> ELSE Up(x * 2, k + 1)
-             u == Up(m, 0)
-             ef == e - u[2] + 150
-         IN IF ef >= 1 THEN FPack(v[1], ef, u[1] - 8388608)
-            ELSE \* subnormal: value = mant * 2^-149
-                 LET RECURSIVE Sh(_, _)
-                     Sh(x, k) == IF k = 0 THEN x ELSE Sh(x * 2, k - 1)
-                 IN FPack(v[1], 0, Sh(m, e + 149))
 
 \* ---- families ---------------------------------------------------------------
 Pow2Mag(k) == \* 2^k as a magnitude
@@ -104,11 +70,16 @@ EmitCase == Family = "trace" \/ ~Emit \/ PrintT(ToJson(Out))
 \*  [k |-> "b2i", b, neg, mag]        bytes_to_int(b) = n
 \*  [k |-> "b2f", b, cls, val]        bytes_to_float(b) has class cls and exact value val
 \*  [k |-> "f2b", b, back]            float_to_bytes(bytes_to_float(b)) = back
+\*  [k |-> "fit", lim, neg, mag, b]   an integer instruction whose exact result is n ran under the item limit lim
+\*                                    and left b (<<>>: it failed): it succeeds iff n fits the limit
 TraceOK(t) ==
     CASE t.k = "i2b" -> ValidEnc(t.b, MkInt(t.neg, t.mag))
       [] t.k = "b2i" -> DecS(t.b) = MkInt(t.neg, t.mag)
       [] t.k = "b2f" -> /\ t.cls = FClass(t.b)
                         /\ (t.cls \in {"nan"} \/ (t.cls = "inf" /\ t.val[1] = FSign(t.b)) \/ t.val = FValue(t.b))
       [] t.k = "f2b" -> IF FClass(t.b) = "nan" THEN FClass(t.back) = "nan" ELSE t.back = t.b
+      [] t.k = "fit" -> LET x == MkInt(t.neg, t.mag) IN
+                        IF Len(EncS(x)) <= t.lim THEN t.b # <<>> /\ ValidEnc(t.b, x) /\ Len(t.b) <= t.lim
+                        ELSE t.b = <<>>
 TraceCheck == Family # "trace" \/ TraceOK(TraceLog[c.i]) \/ PrintT(ToJson([bad |-> c.i]))
 =============================================================================
